@@ -8,9 +8,11 @@ import (
 
 // The worker publishes the case it is about to run by a store into a small file-backed shared mapping
 // (no system call per case). If the worker hangs or dies the driver reads it back: the announced case is
-// the observation.
+// the observation, and the case counter lets a resumable check be restarted just after it.
+//
+// layout: [0:8] case counter, [8:12] text length, [12:] text
 
-const annSize = 8192
+const annSize = 16384
 
 var annBuf []byte
 
@@ -31,8 +33,18 @@ func Announce(s string) {
 	if annBuf == nil {
 		return
 	}
-	n := copy(annBuf[8:], s)
-	binary.LittleEndian.PutUint32(annBuf, uint32(n))
+	n := copy(annBuf[12:], s)
+	binary.LittleEndian.PutUint32(annBuf[8:], uint32(n))
+}
+
+// AnnounceCase records the case counter and what is about to be executed.
+func AnnounceCase(counter int64, s string) {
+	if annBuf == nil {
+		return
+	}
+	binary.LittleEndian.PutUint64(annBuf, uint64(counter))
+	n := copy(annBuf[12:], s)
+	binary.LittleEndian.PutUint32(annBuf[8:], uint32(n))
 }
 
 // NewAnnounceFile creates an empty announce file.
@@ -42,13 +54,19 @@ func NewAnnounceFile(path string) error {
 
 // ReadAnnounce returns the last announcement stored in the file.
 func ReadAnnounce(path string) string {
+	_, s := ReadAnnounceCase(path)
+	return s
+}
+
+// ReadAnnounceCase returns the case counter and the last announcement.
+func ReadAnnounceCase(path string) (int64, string) {
 	b, err := os.ReadFile(path)
-	if err != nil || len(b) < 8 {
-		return ""
+	if err != nil || len(b) < 12 {
+		return 0, ""
 	}
-	n := int(binary.LittleEndian.Uint32(b))
-	if n > len(b)-8 {
-		n = len(b) - 8
+	n := int(binary.LittleEndian.Uint32(b[8:]))
+	if n > len(b)-12 {
+		n = len(b) - 12
 	}
-	return string(b[8 : 8+n])
+	return int64(binary.LittleEndian.Uint64(b)), string(b[12 : 12+n])
 }
